@@ -133,6 +133,9 @@ def configs(tier, seed):
 ODD_PARAMS = [
     ("mux", {"shadow_overlaps": -1}), ("mux", {"shadow_overlaps": -7}), ("mux", {"shadow_overlaps": True}), ("mux", {"shadow_overlaps": 1.0}),
     ("mux", {"shadow_overlaps": "1"}), ("mux", {"shadow_overlaps": 10 ** 6}),
+    # a sharing limit that an unaligned layout can never meet, at low and at high base addresses (refusal after a bounded search)
+    ("mux", {"shadow_overlaps": 0, "base": 0x0}), ("mux", {"shadow_overlaps": 0, "base": 0x1000}), ("mux", {"shadow_overlaps": 0, "base": 0xf000}),
+    ("mux", {"shadow_overlaps": None, "base": 0x1000}),
     ("csr_decoder", {"addr_width": 1, "data_width": 8, "alignment": 40}), ("csr_decoder", {"addr_width": 70, "data_width": 8}),
     ("csr_decoder", {"addr_width": True, "data_width": 8}), ("csr_decoder", {"addr_width": 4, "data_width": 1}),
     ("wb_decoder", {"addr_width": 0, "data_width": 64, "granularity": 8}), ("wb_decoder", {"addr_width": 1, "data_width": 8, "alignment": 9}),
@@ -163,9 +166,10 @@ def build_odd(cfg):
             class MockReg(wiring.Component):
                 def __init__(self, width, access):
                     super().__init__({"element": Out(csr.Element.Signature(width, access))})
-            mm = MemoryMap(addr_width=4, data_width=8)
-            mm.add_resource(MockReg(8, "rw"), name="a", size=1)
-            mm.add_resource(MockReg(16, "rw"), name="b", size=2)
+            base = kw.pop("base", None)
+            mm = MemoryMap(addr_width=4 if base is None else 16, data_width=8)
+            mm.add_resource(MockReg(8, "rw"), name="a", size=1, addr=base)
+            mm.add_resource(MockReg(16, "rw"), name="b", size=2, addr=None if base is None else base + 1)
             c = csr.Multiplexer(mm, **kw); return c, c.bus.memory_map
         if what == "csr_decoder":
             c = csr.Decoder(**kw); return c, c.bus.memory_map
